@@ -219,6 +219,54 @@ def occurrence_histories(ctx, cases, keepfiles):
                 name, vv[0], vv[1], bytes(c['in']), bytes(c['out']), src[:60], out[:60]), {'kind': 'minify', 'src': list(src), 'cfg': 'default'})
 
 
+def cli_path(ctx, rnd):
+    """the options as the user gives them: `p8tool luamin` and `p8tool build --lua-minify`, each with --keep-all-names and
+    with --keep-names-from-file (the help text of both commands promises that the listed names are preserved)"""
+    import os
+    import tempfile
+    from pico8 import tool
+    src = open(os.path.join(core.VERIF, 'fixtures', 'lua', 'every_node.lua'), 'rb').read()
+    d = tempfile.mkdtemp(prefix='c02_', dir=ctx.tmp)
+    p = os.path.join(d, 'in.p8')
+    with open(p, 'wb') as f:
+        f.write(b'pico-8 cartridge // http://www.pico-8.com\nversion 8\n__lua__\n' + src + b'__gfx__\n')
+    names = minify.names_in(src)
+    keep = [n for n in names if n not in (b'print',)][1::3][:12]
+    raw = minify.keep_file_bytes(keep, rnd)
+    kf = os.path.join(d, 'keep.txt')
+    open(kf, 'wb').write(raw)
+    runs = []
+    for opt, kw in ((['--keep-names-from-file', kf], {'keep_file': raw}), (['--keep-all-names'], {'keep_all': True})):
+        runs.append((['--quiet', 'luamin'] + opt + [p], os.path.join(d, 'in_fmt.p8'), kw, 'luamin ' + opt[0]))
+        runs.append((['--quiet', 'build', os.path.join(d, 'b.p8'), '--lua', p, '--lua-minify'] + opt, os.path.join(d, 'b.p8'), kw, 'build --lua-minify ' + opt[0]))
+    traces, meta = [], []
+    for argv, outp, kw, what in runs:
+        if os.path.exists(outp):
+            os.unlink(outp)
+        try:
+            rc = tool.main(argv)
+        except SystemExit as e:
+            rc = e.code
+        except Exception as e:  # noqa
+            rc = 'exception %s' % type(e).__name__
+        if rc not in (0, None) or not os.path.exists(outp):
+            ctx.violation('cli-fails/' + what.replace(' ', '_'), 'p8tool %s failed on the every-node fixture (rc=%s)' % (what, rc), {'kind': 'cli', 'what': what})
+            continue
+        data = open(outp, 'rb').read()
+        a = data.index(b'__lua__\n') + 8
+        b = data.index(b'\n__gfx__') + 1 if b'\n__gfx__' in data else len(data)
+        traces.append(minify.make_trace(src, data[a:b], 'C02', [], keep_all=kw.get('keep_all', False), keep_file=kw.get('keep_file', b'')))
+        meta.append(what)
+    if traces:
+        v = ctx.validate('TraceMinify', traces)
+        for what, vv in zip(meta, v):
+            ctx.evaluations += 1
+            if vv[0] == 'ok':
+                ctx.nontrivial += 1
+            elif vv[0] not in ('ood', 'misaligned'):
+                ctx.violation('cli/%s/%s' % (what.replace(' ', '_'), vv[0]), 'output of p8tool %s rejected (%s): the option is not honoured' % (what, vv[0]), {'kind': 'cli', 'what': what})
+
+
 def run(ctx):
     rnd = random.Random(ctx.seed)
     ctx.rule = ('(1) Renamer.tla exhaustively for call sequences over 7 names; (2) call histories of real name factories over thousands of distinct identifiers x keep '
@@ -233,6 +281,7 @@ def run(ctx):
     cases = minify.program_cases(ctx, rnd, sets, ('spaced', 'lines'))
     c01.judge(ctx, cases[::3], ('default', 'keepfile', 'keepall'), keepfiles, focus='C02')
     c01.judge(ctx, c01.fixture_cases(ctx, rnd), ('default', 'keepfile', 'keepall'), keepfiles, focus='C02')
+    cli_path(ctx, rnd)
     occurrence_histories(ctx, [('probe%d' % k, s, []) for k, s in enumerate(PROBES)] + cases[1::3] + c01.fixture_cases(ctx, rnd), keepfiles)
     ctx.evaluations += len(cases[::3]) * 3
 
